@@ -349,6 +349,135 @@ KERNELS += [
         ["zone_polar_test_eq_model"]),
 ]
 
+# ---- round 4: the cursor/format/offset kernels of the bw64 reader and the two sites repaired by the latest `fix:` commits
+_CH = "ear/fileio/bw64/chunks.py"
+_DSP = "ear/core/direct_speakers/panner.py"
+KERNELS += [
+    # C18 — Bw64Reader.read: the frame-count clamp and the byte count requested from the buffer
+    Kernel("C18", KernelSpec(
+        _RD, "Bw64Reader.read", "read_clamp", "(k : Cfg) (pos numberOfFrames : Int)", "Int",
+        names={"numberOfFrames": ("numberOfFrames", "int")},
+        exprs={"self.tell()": ("(Earverif.Cursor.tell k pos)", "int"), "len(self)": ("(Earverif.Cursor.len k)", "int")},
+        select=dict(range=("re:if .*numberOfFrames", "rawData = ")), outputs=["numberOfFrames"],
+        notes="range: the `if(self.tell() + numberOfFrames > len(self))` clamp; self.tell() / len(self) are the model's "
+              "Cursor.tell / Cursor.len (tied by tell_eq_model / len_eq_model); output numberOfFrames"),
+        ["read_clamp_eq_model"]),
+    Kernel("C18", KernelSpec(
+        _RD, "Bw64Reader.read", "read_nbytes", "(k : Cfg) (numberOfFrames : Int)", "Int",
+        names={"numberOfFrames": ("numberOfFrames", "int")}, exprs=_CURSOR_EXPRS,
+        select=dict(value_of="rawData = ", arg_of="self._buffer.read"),
+        notes="the argument of self._buffer.read(...)"), ["read_clamp_eq_model"]),
+    # C09 / C17 — FormatInfoChunk.blockAlignment / bytesPerSecond, ChunkIndex offsets, _read_chunk_header
+    Kernel(("C09", "C17", "C18"), KernelSpec(
+        _CH, "FormatInfoChunk.blockAlignment", "block_alignment", "(channelCount bitsPerSample : Nat)", "Nat",
+        exprs={"self.channelCount": ("channelCount", "nat"), "self.bitsPerSample": ("bitsPerSample", "nat")},
+        notes="int(x / 8) of a natural x = division of naturals"), ["block_alignment_eq_model"]),
+    Kernel(("C09", "C17"), KernelSpec(
+        _CH, "FormatInfoChunk.bytesPerSecond", "bytes_per_second", "(sampleRate blockAlignment : Nat)", "Nat",
+        exprs={"self.sampleRate": ("sampleRate", "nat"), "self.blockAlignment": ("blockAlignment", "nat")}),
+        ["bytes_per_second_eq_model"]),
+    Kernel(("C18", "C09", "C17"), KernelSpec(
+        _CH, "ChunkIndex.__init__", "chunk_position", "(size position : Nat)", "Nat × Nat × Nat × Nat",
+        names={"size": ("size", "nat"), "position": ("position", "nat")},
+        ctors={("ChunkPosition", 4): "({0}, {1}, {2}, {3})"}, select=dict(value_of="self._position = "),
+        notes="ChunkPosition(chunkId, size, data, end) as a 4-tuple of offsets"),
+        ["chunk_position_eq_model", "chunk_position_openReader"]),
+    Kernel(("C09", "C17"), KernelSpec(
+        _RD, "Bw64Reader._read_chunks", "chunk_index_args", "(pos chunkSize : Nat)", "Nat × Int",
+        names={"chunkSize": ("chunkSize", "nat")}, exprs={"self._buffer.tell()": ("pos", "nat")},
+        ctors={("ChunkIndex", 2): "({0}, {1})"}, select=dict(value_of="self._chunks[chunkId] = "),
+        notes="the arguments of ChunkIndex(chunkSize, self._buffer.tell() - 8); pos = buffer position after the header"),
+        ["chunk_index_args_eq_model"]),
+    Kernel(("C17", "C09"), KernelSpec(
+        _RD, "Bw64Reader._read_chunk_header", "read_chunk_header_size",
+        "(isBw64 : Bool) (d : Earverif.Bw64.Ds64) (id : Earverif.Bw64.Bytes) (isData : Bool) (chunkSize : Nat)", "Option Nat",
+        names={"chunkSize": ("chunkSize", "nat")},
+        exprs={"self.fileFormat in [b'RF64', b'BW64']": ("isBw64", "bool"), "chunkId == b'data'": ("isData", "bool"),
+               "self._ds64.dataSize": ("d.dataSize", "nat"), "chunkId in self._ds64.table": ("(d.lookup id).isSome", "bool"),
+               "self._ds64.table[chunkId]": ("((d.lookup id).getD 0)", "nat")},
+        ret_mode="option", select=dict(range=("if self.fileFormat in [b'RF64', b'BW64']", "return (chunkId, chunkSize)")),
+        outputs=["chunkSize"],
+        notes="range: the size correction for RF64/BW64 and, in its else, the rejection of the 0xFFFFFFFF data placeholder "
+              "(fix 61d37f4); none = that ValueError; output chunkSize; isBw64 = `self.fileFormat in [b'RF64', b'BW64']` "
+              "(the model: a ds64 chunk was read), isData = `chunkId == b'data'`, dict lookups through Ds64.lookup"),
+        ["read_chunk_header_size_eq_model", "read_chunk_header_eq_model"]),
+    # C10 — the position handed to the fallback panner (fix 1404dee: unit distance for polar blocks)
+    Kernel("C10", KernelSpec(
+        _DSP, "DirectSpeakersPanner._handle_without_gain", "ds_pan_position",
+        "(isPolar : Bool) (az el dist : α) (cartPos : Earverif.GainCalc.V3 α)", "Earverif.GainCalc.V3 α", scalar="GainCalc",
+        exprs={"isinstance(shifted_position, DirectSpeakerPolarPosition)": ("isPolar", "bool"),
+               "shifted_position.azimuth": ("az", "alpha"), "shifted_position.elevation": ("el", "alpha"),
+               "shifted_position.distance": ("dist", "alpha"),
+               "shifted_position.as_cartesian_array()": ("cartPos", "ctor")},
+        ctors={("cart", 3): "(Earverif.GainCalc.cart {0} {1} {2})"},
+        select=dict(range=("re:if .*isinstance\\(shifted_position, DirectSpeakerPolarPosition\\)", "pv = np.zeros(self.n_channels)")),
+        outputs=["position"],
+        notes="range: the if/else that chooses `position` in the final else; cart(...) is the model's GainCalc.cart, "
+              "cartPos = shifted_position.as_cartesian_array() (the model's Shifted.cart)"), ["ds_pan_position_eq_model"]),
+]
+
+# ---- round 5: code that entered the models recently (C04 layout glue, C02 overlap-save / block-size adapter indices,
+# C15 interpolationLength clamps, C11 LFE routing mask)
+_LY = "ear/core/layout.py"
+_CO = "ear/core/convolver.py"
+_VBS_NAMES = {"n_input": ("n_input", "nat"), "n_done": ("n_done", "nat")}
+_VBS_EXPRS = {"self.block_size": ("B", "nat"), "self.buffer_input": ("buffer_input", "nat")}
+_OS_EXPRS = {"len(f)": ("L", "nat"), "self.block_size": ("B", "nat")}
+KERNELS += [
+    Kernel("C04", KernelSpec(
+        _LY, "Layout.with_speakers", "out_channels", "(maxChannel : Int)", "Int",
+        exprs={"max((speaker.channel for speaker in speakers))": ("maxChannel", "int")}, select=dict(value_of="out_channels = "),
+        notes="max(speaker.channel for speaker in speakers) is the model's maxInt of the channel numbers"),
+        ["out_channels_eq_model"]),
+    Kernel("C04", KernelSpec(
+        _LY, "Channel.check_position", "el_range_test", "(lo hi el : Rat)", "Bool",
+        exprs={"self.el_range[0]": ("lo", "rat"), "self.el_range[1]": ("hi", "rat"), "self.polar_position.elevation": ("el", "rat")},
+        select=dict(value_of="re:if .*self\\.el_range"),
+        notes="the test of `if not self.el_range[0] <= elevation <= self.el_range[1]:` (true = warning)"),
+        ["el_range_test_eq_model"]),
+    Kernel("C04", KernelSpec(
+        _LY, "Layout.check_upmix_matrix", "upmix_unmapped_test", "(num_outputs : Nat)", "Bool",
+        names={"num_outputs": ("num_outputs", "nat")}, select=dict(value_of="re:if (num_outputs == 0|0 == num_outputs)")), ["upmix_tests_eq_model"]),
+    Kernel("C04", KernelSpec(
+        _LY, "Layout.check_upmix_matrix", "upmix_multi_out_test", "(num_outputs : Nat)", "Bool",
+        names={"num_outputs": ("num_outputs", "nat")}, select=dict(value_of="re:if (num_outputs > 1|1 < num_outputs|num_outputs >= 2)")), ["upmix_tests_eq_model"]),
+    Kernel("C04", KernelSpec(
+        _LY, "Layout.check_upmix_matrix", "upmix_row_multi_test", "(num_channels : Nat)", "Bool",
+        names={"num_channels": ("num_channels", "nat")}, select=dict(value_of="re:if (num_channels > 1|1 < num_channels|num_channels >= 2)")), ["upmix_tests_eq_model"]),
+    Kernel("C02", KernelSpec(
+        _CO, "OverlapSaveConvolver.__init__", "os_block_end", "(L B start : Nat)", "Nat",
+        names={"start": ("start", "nat")}, exprs=_OS_EXPRS, select=dict(value_of="end = "),
+        notes="end = min(len(f), start + self.block_size)"), ["os_block_end_eq_model"]),
+    Kernel("C02", KernelSpec(
+        _CO, "OverlapSaveConvolver.__init__", "os_range", "(L B : Nat)", "Int × Nat × Nat",
+        exprs=_OS_EXPRS, ctors={("range", 3): "({0}, {1}, {2})"}, select=dict(value_of="for start in range("),
+        notes="the three arguments of range(0, len(f), self.block_size)"), ["os_range_eq_model"]),
+    Kernel("C02", KernelSpec(
+        _CO, "VariableBlockSizeAdapter.process", "vbs_to_xfer", "(n_input n_done B buffer_input : Nat)", "Int",
+        names=_VBS_NAMES, exprs=_VBS_EXPRS, select=dict(value_of="to_xfer = ")), ["vbs_step_eq_model"]),
+    Kernel("C02", KernelSpec(
+        _CO, "VariableBlockSizeAdapter.process", "vbs_full_test", "(B buffer_input : Nat)", "Bool",
+        exprs=_VBS_EXPRS, select=dict(value_of="re:if .*self\\.buffer_input")), ["vbs_step_eq_model"]),
+    Kernel("C02", KernelSpec(
+        _CO, "VariableBlockSizeAdapter.process", "vbs_loop_test", "(n_input n_done : Nat)", "Bool",
+        names=_VBS_NAMES, select=dict(value_of="re:while ")), ["vbs_step_eq_model"]),
+    Kernel("C15", KernelSpec(
+        _TF, "_clamp_blockFormat_interpolationLength", "clamp_il", "(D : Rat) (isObjects jp : Bool) (il : Option Rat)",
+        "Option Rat", exprs=dict(_tf_exprs("blockFormat"), **{"audioObject.duration": ("D", "rat")}),
+        optionals=_tf_il("blockFormat"), inline={"_has_interpolationLength": "_has_interpolationLength"},
+        outputs=["blockFormat.jumpPosition.interpolationLength"],
+        notes="fix=True; output: interpolationLength after the call"), ["clamp_il_eq_model"]),
+    Kernel("C15", KernelSpec(
+        _TF, "check_blockFormat_interpolationLengths", "il_gt_duration_test", "(il d : Rat)", "Bool",
+        exprs={"blockFormat.jumpPosition.interpolationLength": ("il", "rat"), "blockFormat.duration": ("d", "rat")},
+        select=dict(value_of="re:if (blockFormat\\.jumpPosition\\.interpolationLength|blockFormat\\.duration) [<>]")),
+        ["il_gt_duration_test_eq_model"]),
+    Kernel("C11", KernelSpec(
+        "ear/core/scenebased/renderer.py", "HOARenderer.__init__", "hoa_output_channels", "(isLfe : List Bool)", "List Bool",
+        exprs={"layout.is_lfe": ("isLfe", "vec:bool")}, select=dict(value_of="self._output_channels = "),
+        notes="~layout.is_lfe: the boolean index FixedMatrix.process writes through"), ["hoa_output_channels_eq_model"]),
+]
+
 # ---- round 3: fileio/adm (C08) and item selection (C06, C07, C14); separate groups (generated + proof module each) ----
 # Strings are `List Char` through Model/C08Digits.lean; objects of the ADM graph are identity tokens (`Nat`) or the
 # models' structures; `raise AdmError(...)` is the model's error kind (the message text is not translated).
@@ -649,6 +778,7 @@ Floats are exact rationals/reals (as in the models).
 
 HEADER = _GEN_DOC % "Props/Kernels.lean" + """import Earverif.Model.GainCalc
 import Earverif.Model.Bw64Cursor
+import Earverif.Model.Bw64Reader
 import Earverif.Model.Timeline
 import Earverif.Model.Conversion
 import Earverif.Model.PointSource
